@@ -3,6 +3,8 @@
 //! All numbers are f32 bit patterns; angles cross as their radian value unless stated.
 //!   conv <deg|rad|turn> <a>   -> to_rads to_degs to_turns          of degs(a) / rads(a) / turns(a)
 //!   wrap <a> <min> <max>      -> wrap                               (radians)
+//!   wrapu <deg|rad|turn> <a> <min> <max> -> wrap  a min max        (all four in radians; the three
+//!                                angles are built with the unit's constructor from the given numbers)
 //!   clamp <a> <min> <max>     -> clamp                              (panics if min > max)
 //!   minmax <a> <b>            -> min max
 //!   ops <a> <b> <s>           -> a+b a-b -a a*s a/s a%b
@@ -40,6 +42,16 @@ pub fn run(t: &[&str]) -> String {
             hs(&[a.to_rads(), a.to_degs(), a.to_turns()])
         }
         "wrap" => hs(&[rads(f(1)).wrap(rads(f(2)), rads(f(3))).to_rads()]),
+        "wrapu" => {
+            let mk = |x: f32| match t[1] {
+                "deg" => degs(x),
+                "rad" => rads(x),
+                "turn" => turns(x),
+                u => panic!("unit {u}"),
+            };
+            let (a, mn, mx) = (mk(f(2)), mk(f(3)), mk(f(4)));
+            hs(&[a.wrap(mn, mx).to_rads(), a.to_rads(), mn.to_rads(), mx.to_rads()])
+        }
         "clamp" => hs(&[rads(f(1)).clamp(rads(f(2)), rads(f(3))).to_rads()]),
         "minmax" => {
             let (a, b) = (rads(f(1)), rads(f(2)));
@@ -245,6 +257,59 @@ pub fn gen(rng: &mut Rng, tier: Tier, out: &mut Vec<String>) {
             // degenerate and reversed intervals
             out.push(format!("wrap {} {} {}", h32(a), h32(mn), h32(mn)));
             out.push(format!("wrap {} {} {}", h32(a), h32(mx), h32(mn)));
+        }
+    }
+    // wrap at the interval ends, through every unit constructor: inputs bit-equal to max and min,
+    // one and two ulps either side, and min + k*span for whole k, on intervals whose limits and
+    // spans are exact in the unit used (the library itself wraps into [-1/2, 1/2) and [0, 1) turn)
+    {
+        let ivs: &[(&str, f32, f32)] = &[
+            ("turn", -0.5, 0.5),
+            ("turn", 0.0, 1.0),
+            ("turn", 0.0, 0.25),
+            ("turn", -0.25, 0.25),
+            ("turn", 1.0, 3.0),
+            ("deg", -180.0, 180.0),
+            ("deg", 0.0, 360.0),
+            ("deg", -90.0, 90.0),
+            ("deg", 0.0, 45.0),
+            ("deg", 30.0, 60.0),
+            ("rad", -PI, PI),
+            ("rad", 0.0, TAU),
+            ("rad", -2.0, 2.0),
+            ("rad", 0.0, 4.0),
+            ("rad", -0.5, 1.5),
+            ("rad", 1.0, 3.0),
+        ];
+        let reps = n(6, 200);
+        for rep in 0..reps {
+            for &(u, mn, mx) in ivs {
+                let span = mx - mn;
+                let mut xs = vec![mx, mn];
+                for d in [-2, -1, 1, 2] {
+                    xs.push(if mx == 0.0 { d as f32 * f32::MIN_POSITIVE } else { ulps(mx, d) });
+                    xs.push(if mn == 0.0 { d as f32 * 1e-38 } else { ulps(mn, d) });
+                }
+                for k in -8..=8 {
+                    xs.push(mn + k as f32 * span);
+                    xs.push(mx + k as f32 * span);
+                }
+                if rep > 0 {
+                    // later repetitions: random whole multiples and their neighbours
+                    xs.clear();
+                    for _ in 0..8 {
+                        let k = rng.range(-300, 301) as f32;
+                        let base = if rng.bool() { mn } else { mx } + k * span;
+                        xs.push(base);
+                        xs.push(ulps(base, rng.range(-2, 3) as i32));
+                    }
+                    xs.push(mx);
+                    xs.push(mn);
+                }
+                for x in xs {
+                    out.push(format!("wrapu {} {} {} {}", u, h32(x), h32(mn), h32(mx)));
+                }
+            }
         }
     }
     // clamp / min / max / operators
